@@ -244,6 +244,18 @@ func (r *rng) failingMessage(t *genType) any {
 			case f.Wire == "string" && prefixMax(f.Len) <= 65535:
 				ev.Field(i).SetString(string(make([]byte, prefixMax(f.Len)+1)))
 				return m, true
+			case f.Kind == "iface" && f.Tbl >= 0 && t.Frame.Body < 0 && r.chance(1, 2):
+				// an extension left out under a discriminator nobody registered: the encoder's fill-in fails
+				// after the fields before it have been written
+				tb := tableById[f.Tbl]
+				kv := ev.Field(f.Key)
+				if tb.KeyKind == "num" {
+					setBits(kv, r.unregisteredNum(tb))
+				} else {
+					kv.SetString(r.unregisteredStr(tb))
+				}
+				ev.Field(i).Set(reflect.Zero(ev.Field(i).Type()))
+				return m, true
 			case f.Kind == "iface" && f.Tbl >= 0:
 				tb := tableById[f.Tbl]
 				for _, e := range tb.Entries {
